@@ -1,7 +1,8 @@
 //! Correspondence driver for property C05 (equality half): runs the real
 //! `eqlog_runtime::Unification<El>` plus a verbatim transcription of the generated
 //! `new_el_internal` / `equate_el` / `root_el` / `are_equal_el` on operation sequences and prints,
-//! after every op, the return value and the representative of every element.
+//! after every op, the return value, the representative of every element and the raw parents vector
+//! (the field is private, but `Unification` derives `Debug`, which is public API).
 //! Input / output formats and the Gallina spelling of every op: README.md next to Cargo.toml.
 //! The model is /verif/coq/UF/Model.v, the model-side runner /verif/coq/UF/Run.v (`run_uf`).
 
@@ -113,12 +114,33 @@ fn sub_weight(&mut self, x: usize, w: usize) {
     *weight0 = weight0.saturating_sub(w);
 }
 
-/// `[root_const(0), .., root_const(len-1)]`: the parents vector is private, the representative
-/// function is all the public API shows.
+/// `[root_const(0), .., root_const(len-1)]`: the representative function, through the public API.
 fn reps(&self) -> Vec<u32> {
     (0..self.el_equalities.len())
         .map(|i| self.el_equalities.root_const(El(i as u32)).0)
         .collect()
+}
+
+/// The raw parents vector, read off the derived `Debug` output
+/// `Unification { parents: [El(1), El(1)], sizes: [] }`.
+fn parents(&self) -> Vec<u64> {
+    let dbg = format!("{:?}", self.el_equalities);
+    let start = dbg.find("parents: [").expect("Debug output has a parents field") + "parents: [".len();
+    let end = start + dbg[start..].find(']').expect("parents list is closed");
+    let mut out = Vec::new();
+    let mut cur = String::new();
+    for c in dbg[start..end].chars() {
+        if c.is_ascii_digit() {
+            cur.push(c);
+        } else if !cur.is_empty() {
+            out.push(cur.parse::<u64>().expect("number"));
+            cur.clear();
+        }
+    }
+    if !cur.is_empty() {
+        out.push(cur.parse::<u64>().expect("number"));
+    }
+    out
 }
 }
 
@@ -207,15 +229,16 @@ fn run_line(line: &str) -> String {
         let r = panic::catch_unwind(AssertUnwindSafe(|| {
             let ret = run_op(&mut m, &toks, &mut pos)?;
             let reps: Vec<u64> = m.reps().into_iter().map(|x| x as u64).collect();
-            Ok::<_, String>((ret, reps))
+            let parents = m.parents();
+            Ok::<_, String>((ret, reps, parents))
         }));
         if !first {
             out.push('|');
         }
         first = false;
         match r {
-            Ok(Ok((ret, reps))) => {
-                let _ = write!(out, "{}:{}", join(&ret), join(&reps));
+            Ok(Ok((ret, reps, parents))) => {
+                let _ = write!(out, "{}:{}:{}", join(&ret), join(&reps), join(&parents));
             }
             Ok(Err(e)) => return format!("E {e}"),
             Err(_) => {
